@@ -15,6 +15,9 @@ import (
 // execAbort ends the current path (not a Go-level panic of the program under test).
 type execAbort struct{ Kind, Msg string }
 
+// UnknownFloat is a float64 computed from symbolic integers (never inspected by checked code).
+type UnknownFloat struct{}
+
 // goPanic is a Go-level panic raised by the program under test (or by its runtime checks).
 type goPanic struct{ Msg string }
 
@@ -83,6 +86,7 @@ type State struct {
 	wgs      map[lockKey]*Term
 	nowCtr   int
 	lastNow  [2]*Term
+	firstNow *Term
 	preempts int
 	status   string
 	statMsg  string
@@ -1288,7 +1292,17 @@ func (s *State) num(v Value) *Term {
 }
 
 func (s *State) binop(op token.Token, x, y Value, xt, yt types.Type) Value {
-	// floats: concrete only
+	// floats: concrete only; a float derived from a symbolic integer is carried as an opaque value
+	// that may be stored and combined but never inspected
+	_, ux := x.(UnknownFloat)
+	_, uy := y.(UnknownFloat)
+	if ux || uy {
+		switch op {
+		case token.ADD, token.SUB, token.MUL, token.QUO:
+			return UnknownFloat{}
+		}
+		panic(execAbort{"unsupported", "comparison of a float derived from a symbolic integer"})
+	}
 	if fx, ok := x.(Float); ok {
 		fy := y.(Float)
 		switch op {
@@ -1564,7 +1578,7 @@ func (s *State) convert(x Value, from, to types.Type) Value {
 		}
 		if isFloat(to) {
 			if t.Op != OConst {
-				panic(execAbort{"unsupported", "symbolic integer to float conversion"})
+				return UnknownFloat{}
 			}
 			_, fs, _ := intWidth(from)
 			if fs {
